@@ -91,7 +91,15 @@ pub fn install_panic_hook() {
                 let f = l.file();
                 // keep paths stable: strip registry and repo prefixes
                 let f = f.rsplit_once("/registry/src/").map(|(_, r)| r.split_once('/').map(|(_, r)| r).unwrap_or(r)).unwrap_or(f);
-                let f = f.strip_prefix("/repo/").unwrap_or(f);
+                // the repository under test may live anywhere (VERIF_REPO): keep the path from
+                // its root, so that violation classes do not depend on where it is checked out
+                let f = if let Some(i) = f.find("/bitar/src/") {
+                    &f[i + 1..]
+                } else if let Some(i) = f.rfind("/src/").filter(|_| !f.contains("/verif/sim/")) {
+                    &f[i + 1..]
+                } else {
+                    f
+                };
                 format!("{}:{}", f, l.line())
             })
             .unwrap_or_else(|| "?".to_string());
